@@ -146,6 +146,7 @@ type runner struct {
 	pend  []pdf.Reference // allocated, not yet written
 	vals  []pdf.Object    // values Put earlier (to write the same value again)
 	inStream bool
+	final    bool
 }
 
 func (x *runner) tok(f string, a ...any) { x.res.Tokens = append(x.res.Tokens, fmt.Sprintf(f, a...)) }
@@ -158,6 +159,10 @@ func (x *runner) remember(o pdf.Object) {
 }
 
 func (x *runner) checkArgs() {
+	// every argument after every operation; in huge programs every 500th operation (and at the end)
+	if len(x.args) > 2000 && x.res.NOps%500 != 0 && !x.final {
+		return
+	}
 	for i := range x.args {
 		a := &x.args[i]
 		if a.fp != "" && FP(a.obj) != a.fp {
@@ -199,6 +204,44 @@ func (x *runner) big() int {
 		}
 	}
 	return 1
+}
+
+// objStmFlags: for every object stream a WriteCompressed call writes (one per 10000
+// objects), whether its encoded data reaches 1024 bytes.  The data is the text
+// WriteCompressed assembles ("num offset" lines, the formatted objects separated
+// by LF), deflated; the cipher changes the length by a formula.
+func (x *runner) objStmFlags(refs []pdf.Reference, objs []pdf.Object) string {
+	if len(refs) != len(objs) || len(objs) == 0 || !x.cfg.XRefStream() {
+		return "0"
+	}
+	var flags []string
+	for len(objs) > 0 {
+		k := min(len(objs), 10000)
+		var head, body bytes.Buffer
+		for i := 0; i < k; i++ {
+			fmt.Fprintf(&head, "%d %d\n", refs[i].Number(), body.Len())
+			if i < k-1 {
+				pdf.Format(&body, x.w.GetOptions(), objs[i])
+				body.WriteByte('\n')
+			}
+		}
+		pdf.Format(&body, x.w.GetOptions(), objs[k-1])
+		var out bytes.Buffer
+		enc, err := pdf.FilterFlate{}.Encode(x.cfg.V(), nopCloser{&out})
+		if err != nil {
+			return "0"
+		}
+		enc.Write(head.Bytes())
+		enc.Write(body.Bytes())
+		enc.Close()
+		if x.cfg.encLen(out.Len()) >= 1024 {
+			flags = append(flags, "1")
+		} else {
+			flags = append(flags, "0")
+		}
+		refs, objs = refs[k:], objs[k:]
+	}
+	return fmt.Sprintf("%d %s", len(flags), strings.Join(flags, " "))
 }
 
 // call runs one Writer call, turning a panic into an error class.
@@ -554,7 +597,7 @@ func (x *runner) stream(plan *Plan) bool {
 					cls, text := x.call(func() error { _, err := x.w.OpenStream(pdf.NewReference(77, 0), pdf.Dict{}); return err })
 					return x.step(cls, text)
 				case 1:
-					x.tok("C 1 78 0 1 o i1 0")
+					x.tok("C 1 78 0 1 o i1 1 0")
 					x.desc("WriteCompressed while open")
 					cls, text := x.call(func() error { return x.w.WriteCompressed([]pdf.Reference{pdf.NewReference(78, 0)}, pdf.Integer(1)) })
 					return x.step(cls, text)
@@ -662,16 +705,17 @@ func (x *runner) compressed(plan *Plan) bool {
 		x.remember(o)
 		sb.WriteString(" " + x.wirePObj(o))
 	}
-	x.desc("WriteCompressed(%v, %d objects)", refs, len(objs))
+	if len(refs) > 40 {
+		x.desc("WriteCompressed(%v ... %v, %d objects)", refs[0], refs[len(refs)-1], len(objs))
+	} else {
+		x.desc("WriteCompressed(%v, %d objects)", refs, len(objs))
+	}
 	var snaps []*Want
 	for _, o := range objs {
 		snaps = append(snaps, snapshot(o))
 	}
 	cls, text := x.call(func() error { return x.w.WriteCompressed(refs, objs...) })
-	x.tok("%s %d", sb.String(), x.big())
-	if cls == "" && len(objs) > 10000 && x.cfg.XRefStream() {
-		x.res.HugeBatch = true
-	}
+	x.tok("%s %s", sb.String(), x.objStmFlags(refs, objs))
 	if cls == "" {
 		for i := range objs {
 			x.noteWritten(refs[i], snaps[i])
@@ -825,6 +869,7 @@ func Run(r *rand.Rand, cfg Config, plan Plan) *Result {
 	x.tok("Z %s %s", WireString(res.CatDict, false), it)
 	x.desc("Close (catalog %s, info %s)", WireString(res.CatDict, false), it)
 	cls, text = x.call(func() error { return x.w.Close() })
+	x.final = true
 	if !x.step(cls, text) {
 		return res
 	}
@@ -832,9 +877,18 @@ func Run(r *rand.Rand, cfg Config, plan Plan) *Result {
 	if plan.AfterClose {
 		// not part of the program: the Writer is closed, every further operation is a misuse it has to refuse
 		n := len(x.sink.Buf)
-		cls, _ := x.call(func() error { return x.w.Put(x.w.Alloc(), pdf.Integer(1)) })
-		if cls == "" {
-			res.AfterCloseAccepted = fmt.Sprintf("%d bytes appended after %%%%EOF", len(x.sink.Buf)-n)
+		var accepted []string
+		try := func(name string, f func() error) {
+			if cls, _ := x.call(f); cls == "" {
+				accepted = append(accepted, name)
+			}
+		}
+		try("Put", func() error { return x.w.Put(x.w.Alloc(), pdf.Integer(1)) })
+		try("OpenStream", func() error { _, err := x.w.OpenStream(x.w.Alloc(), nil); return err })
+		try("WriteCompressed", func() error { return x.w.WriteCompressed([]pdf.Reference{x.w.Alloc()}, pdf.Integer(2)) })
+		try("Close", func() error { return x.w.Close() })
+		if len(accepted) > 0 || len(x.sink.Buf) != n {
+			res.AfterCloseAccepted = fmt.Sprintf("accepted after Close: %v; %d bytes appended after %%%%EOF", accepted, len(x.sink.Buf)-n)
 		}
 	}
 	return res
